@@ -41,6 +41,11 @@ def run_sweep(chk, orch, oracle, make_wl, n_quick=10, n_round=32, crash_share=0.
                     # stage-relative kill (located with a fault-free probe run of the same job)
                     a["fault"] = {"kind": "kill", "stage": chk.rng.choice(["collect", "resolve", "construct", "construct", "merge", "merge", "cleanup"]),
                                   "frac": round(chk.rng.random(), 3), "phase": chk.rng.choice(["before", "after"])}
+                # every fourth injected termination is a SIGINT to the top-level process instead of a SIGKILL of the tree: the
+                # stack unwinds (finally blocks, destructors, exit handlers run) - derived from numbers already drawn
+                if int(a["fault"].get("index", int(a["fault"].get("frac", 0) * 1000))) % 4 == 0:
+                    a["fault"]["kind"] = "interrupt"
+                    a["fault"]["phase"] = "before"
                 a["resume"] = {}
             if forced and forced.get("resume_hashseed") is not None:
                 # the killed run and the resumed run are different processes with different string hash seeds: first half
@@ -71,7 +76,10 @@ def run_sweep(chk, orch, oracle, make_wl, n_quick=10, n_round=32, crash_share=0.
             chk.count_run(res)
             crashed = fn.endswith("crash_resume") and not res.get("no_crash")
             if crashed:
-                chk.faults["kill-tree/" + a["fault"]["phase"]] += 1
+                if a["fault"].get("kind") == "interrupt":
+                    chk.faults["sigint(KeyboardInterrupt at the event, stack unwinds)"] += 1
+                else:
+                    chk.faults["kill-tree/" + a["fault"]["phase"]] += 1
                 if a["fault"].get("stage"):
                     chk.probes["stage_relative_kill_in_" + a["fault"]["stage"]] += 1
             if cell["hashseed"]:
